@@ -27,12 +27,21 @@ type tb struct {
 	ssub   map[ssa.Value]string // callee parameter -> slice/other term of the argument
 	depth  int
 	tables map[*ssa.Global]*constTable
+	fsub   map[fref]aff       // fields of struct-valued parameters of an inlined callee: integer fields
+	fssub  map[fref]string    // ... slice fields
 	ub     map[ssa.Value]int  // values known to be non-negative with at most this many significant bits (arguments of an inlined call)
 	small  map[ssa.Value]bool // values known to be small non-negative integers (loop counters with constant bounds)
 }
 
+// fref names field i of the struct value held by parameter v.
+type fref struct {
+	v ssa.Value
+	i int
+}
+
 func newTB(res *Result) *tb {
-	t := &tb{res: res, memo: map[ssa.Value]aff{}, names: map[ssa.Value]string{}, subst: map[ssa.Value]aff{}, ssub: map[ssa.Value]string{}}
+	t := &tb{res: res, memo: map[ssa.Value]aff{}, names: map[ssa.Value]string{}, subst: map[ssa.Value]aff{}, ssub: map[ssa.Value]string{},
+		fsub: map[fref]aff{}, fssub: map[fref]string{}}
 	if res != nil {
 		for k, v := range res.Subst {
 			t.subst[k] = v
@@ -40,8 +49,138 @@ func newTB(res *Result) *tb {
 		for k, v := range res.SSub {
 			t.ssub[k] = v
 		}
+		for k, v := range res.FSub {
+			t.fsub[k] = v
+		}
+		for k, v := range res.FSSub {
+			t.fssub[k] = v
+		}
 	}
 	return t
+}
+
+// structParam: v is a struct-valued parameter with field bindings, or a load of the local it was spilled into (go/ssa
+// copies a value receiver whose fields are addressed into a local first).
+func (t *tb) structParam(v ssa.Value) (ssa.Value, bool) {
+	v = strip(v)
+	if p, ok := v.(*ssa.Parameter); ok {
+		if structOf(p.Type()) != nil {
+			return p, true
+		}
+		return nil, false
+	}
+	var al *ssa.Alloc
+	switch x := v.(type) {
+	case *ssa.UnOp:
+		if x.Op == token.MUL {
+			al, _ = x.X.(*ssa.Alloc)
+		}
+	case *ssa.Alloc:
+		al = x
+	}
+	if al == nil || al.Referrers() == nil {
+		return nil, false
+	}
+	var src ssa.Value
+	for _, ref := range *al.Referrers() {
+		switch y := ref.(type) {
+		case *ssa.Store:
+			if y.Addr != ssa.Value(al) || src != nil {
+				return nil, false
+			}
+			src = y.Val
+		case *ssa.FieldAddr:
+			for _, rr := range *y.Referrers() {
+				if st, isSt := rr.(*ssa.Store); isSt && st.Addr == ssa.Value(y) {
+					return nil, false // a field of the copy is assigned
+				}
+			}
+		}
+	}
+	if p, ok := src.(*ssa.Parameter); ok && structOf(p.Type()) != nil {
+		return p, true
+	}
+	return nil, false
+}
+
+// fieldRef: v reads field i of a struct-valued parameter (directly, or through its spilled copy).
+func (t *tb) fieldRef(v ssa.Value) (fref, bool) {
+	switch x := v.(type) {
+	case *ssa.Field:
+		if p, ok := t.structParam(x.X); ok {
+			return fref{p, x.Field}, true
+		}
+	case *ssa.UnOp:
+		if x.Op == token.MUL {
+			if fa, ok := x.X.(*ssa.FieldAddr); ok {
+				if p, ok := t.structParam(fa.X); ok {
+					return fref{p, fa.Field}, true
+				}
+			}
+		}
+	}
+	return fref{}, false
+}
+
+// bindArg binds parameter p of an inlined callee to argument a of the call, evaluated in t: integers as terms, booleans
+// by name, slices as slice terms, struct values field by field.
+func (t *tb) bindArg(child *tb, p *ssa.Parameter, a ssa.Value, sliceOf func(ssa.Value) string) {
+	switch {
+	case isIntegerType(a.Type()):
+		child.subst[p] = t.term(a)
+		if n := t.ubits(a); n < 64 {
+			if child.ub == nil {
+				child.ub = map[ssa.Value]int{}
+			}
+			child.ub[p] = n
+		}
+	case isBoolType(a.Type()):
+		if n, ok := t.names[a]; ok {
+			child.ssub[p] = n
+		} else {
+			child.ssub[p] = "?bool"
+		}
+	case structOf(a.Type()) != nil && !isPointer(a.Type()):
+		st := structOf(a.Type())
+		orig, isParam := t.structParam(a)
+		var fs map[string]fsrc
+		if !isParam {
+			fs = fieldsOfValue(strip(a), 0)
+		}
+		for i := 0; i < st.NumFields(); i++ {
+			ft := st.Field(i).Type()
+			if isParam {
+				if v, ok := t.fsub[fref{orig, i}]; ok {
+					child.fsub[fref{p, i}] = v
+				}
+				if v, ok := t.fssub[fref{orig, i}]; ok {
+					child.fssub[fref{p, i}] = v
+				}
+				continue
+			}
+			src, ok := fs[st.Field(i).Name()]
+			if !ok || src.Val == nil {
+				continue
+			}
+			if isIntegerType(ft) {
+				child.fsub[fref{p, i}] = t.term(src.Val)
+			} else if _, isSl := ft.Underlying().(*types.Slice); isSl {
+				child.fssub[fref{p, i}] = sliceOf(src.Val)
+			}
+		}
+	default:
+		child.ssub[p] = sliceOf(a)
+	}
+}
+
+func isBoolType(t types.Type) bool {
+	b, ok := t.Underlying().(*types.Basic)
+	return ok && b.Info()&types.IsBoolean != 0
+}
+
+func isPointer(t types.Type) bool {
+	_, ok := t.Underlying().(*types.Pointer)
+	return ok
 }
 
 // inline evaluates result idx of a call to an in-package function as a term of the caller: the callee is specialised on
@@ -72,23 +211,7 @@ func (t *tb) inline(c *ssa.Call, idx int, asSlice bool) (string, aff, bool) {
 		} else if k, ok := a.(*ssa.Const); ok && k.Value != nil {
 			bind[p] = k.Value
 		}
-		if isIntegerType(a.Type()) {
-			child.subst[p] = t.term(a)
-			if n := t.ubits(a); n < 64 {
-				if child.ub == nil {
-					child.ub = map[ssa.Value]int{}
-				}
-				child.ub[p] = n
-			}
-		} else if b, ok := a.Type().Underlying().(*types.Basic); ok && b.Info()&types.IsBoolean != 0 {
-			if n, ok := t.names[a]; ok {
-				child.ssub[p] = n
-			} else {
-				child.ssub[p] = "?bool"
-			}
-		} else {
-			child.ssub[p] = t.sliceTerm(a)
-		}
+		t.bindArg(child, p, a, t.sliceTerm)
 	}
 	sub := specializeAt(cal, bind, t.tables, t.depth+1)
 	child.res = sub
@@ -342,6 +465,11 @@ func (t *tb) term1(v ssa.Value) aff {
 	if k, ok := t.constVal(v); ok {
 		return affConst(k)
 	}
+	if fr, ok := t.fieldRef(v); ok {
+		if a, bound := t.fsub[fr]; bound {
+			return a
+		}
+	}
 	switch x := v.(type) {
 	case *ssa.Parameter:
 		return affAtom(x.Name())
@@ -514,7 +642,12 @@ func (t *tb) term1(v ssa.Value) aff {
 			}
 			if width > 0 {
 				if _, isSlice := arg.(*ssa.Slice); !isSlice {
-					return t.atomOf("%s(%d,%s[0])", e, width, t.sliceTerm(arg))
+					st := t.sliceTerm(arg)
+					// the slice is itself "X[lo:...]" (e.g. handed back by an inlined helper): element 0 is X[lo]
+					if base, lo, ok := splitSliceTerm(st); ok {
+						return t.atomOf("%s(%d,%s[%s])", e, width, base, lo)
+					}
+					return t.atomOf("%s(%d,%s[0])", e, width, st)
 				}
 			}
 			return t.atomOf("%s(?,%s)", e, t.sliceTerm(arg))
@@ -576,6 +709,11 @@ func (t *tb) sliceTerm(v ssa.Value) string {
 	}
 	if n, ok := t.names[v]; ok {
 		return n
+	}
+	if fr, ok := t.fieldRef(v); ok {
+		if n, bound := t.fssub[fr]; bound {
+			return n
+		}
 	}
 	switch x := v.(type) {
 	case *ssa.Parameter:
@@ -695,6 +833,13 @@ func (t *tb) byteCompose(root *ssa.BinOp) (aff, bool) {
 				}
 			}
 		case *ssa.Call:
+			// a single byte handed back by an inlined helper (c.at(i))
+			if bits, uns, isInt := intBits(x.Type()); isInt && uns && bits == 8 && shift+8 <= int64(minW) {
+				if base, ia, ok := splitElemAtom(t.term(x)); ok {
+					leaves = append(leaves, leaf{shift, base, ia})
+					return
+				}
+			}
 			// an already-composed little-endian group (encoding/binary call or inlined helper) contributes its bytes
 			var k int64
 			var base, idx string
@@ -854,6 +999,18 @@ func (t *tb) loopIdiom(acc *ssa.Phi) (aff, bool) {
 	}
 	// byteAt: v is (a widening of) base[off+@i]; returns base name and off
 	byteAt := func(v ssa.Value) (string, aff, bool) {
+		if c, isCall := unconv(v).(*ssa.Call); isCall {
+			// a byte fetched through an inlined helper: base[off+@i]
+			if bits, uns, isInt := intBits(c.Type()); isInt && uns && bits == 8 {
+				if base, idx, ok := splitElemAtom(sub.term(c)); ok && idx.ok && idx.syms["@i"] == 1 {
+					off := idx.add(affAtom("@i"), -1)
+					if !strings.Contains(off.String(), "@") {
+						return base, off, true
+					}
+				}
+			}
+			return "", aff{}, false
+		}
 		u, ok := unconv(v).(*ssa.UnOp)
 		if !ok || u.Op != token.MUL {
 			return "", aff{}, false
@@ -1101,4 +1258,128 @@ func (t *tb) cycleMark() string {
 		return "cycle:"
 	}
 	return fmt.Sprintf("cycle%d:", t.depth)
+}
+
+
+// splitSliceTerm: "X[lo:hi]" or "X[lo:]" -> (X, lo); lo "" reads as 0. Only for a trailing slice expression of a simple base.
+func splitSliceTerm(s string) (string, string, bool) {
+	if !strings.HasSuffix(s, "]") {
+		return "", "", false
+	}
+	depth := 0
+	open := -1
+	for i := len(s) - 1; i >= 0; i-- {
+		switch s[i] {
+		case ']':
+			depth++
+		case '[':
+			depth--
+			if depth == 0 {
+				open = i
+			}
+		}
+		if open >= 0 {
+			break
+		}
+	}
+	if open <= 0 {
+		return "", "", false
+	}
+	inner := s[open+1 : len(s)-1]
+	// top-level colon
+	d := 0
+	colon := -1
+	for i := 0; i < len(inner); i++ {
+		switch inner[i] {
+		case '[', '(':
+			d++
+		case ']', ')':
+			d--
+		case ':':
+			if d == 0 && colon < 0 {
+				colon = i
+			}
+		}
+	}
+	if colon < 0 {
+		return "", "", false
+	}
+	lo := inner[:colon]
+	if lo == "" {
+		lo = "0"
+	}
+	return s[:open], lo, true
+}
+
+// splitElemAtom: a term that is exactly one atom "base[idx]" naming a byte -> (base, idx as an affine form).
+func splitElemAtom(a aff) (string, aff, bool) {
+	if !a.ok || a.c != 0 || len(a.syms) != 1 {
+		return "", aff{}, false
+	}
+	for atom, coef := range a.syms {
+		if coef != 1 {
+			return "", aff{}, false
+		}
+		if _, isByte := byteAtoms.Load(atom); !isByte || !strings.HasSuffix(atom, "]") {
+			return "", aff{}, false
+		}
+		depth := 0
+		for i := len(atom) - 1; i >= 0; i-- {
+			switch atom[i] {
+			case ']':
+				depth++
+			case '[':
+				depth--
+				if depth == 0 {
+					idx, err := parseAffSum(atom[i+1 : len(atom)-1])
+					if err != nil {
+						return "", aff{}, false
+					}
+					return atom[:i], idx, true
+				}
+			}
+		}
+	}
+	return "", aff{}, false
+}
+
+// parseAffSum parses what aff.String prints for sums of simple atoms and a constant: "pos+3", "@i+pos", "2*x+1", "7".
+func parseAffSum(s string) (aff, error) {
+	out := affConst(0)
+	i := 0
+	sign := int64(1)
+	for i < len(s) {
+		j := i
+		for j < len(s) && s[j] != '+' && !(s[j] == '-' && j > i) {
+			if s[j] == '(' || s[j] == '[' || s[j] == ' ' {
+				return aff{}, fmt.Errorf("not a simple sum")
+			}
+			j++
+		}
+		tok := s[i:j]
+		if strings.HasPrefix(tok, "-") {
+			sign, tok = -1, tok[1:]
+		}
+		coef := int64(1)
+		if k := strings.Index(tok, "*"); k > 0 {
+			c, err := strconv.ParseInt(tok[:k], 10, 64)
+			if err != nil {
+				return aff{}, err
+			}
+			coef, tok = c, tok[k+1:]
+		}
+		if c, err := strconv.ParseInt(tok, 10, 64); err == nil {
+			out = out.add(affConst(c*coef), sign)
+		} else if tok != "" {
+			out = out.add(affAtom(tok).scale(coef), sign)
+		} else {
+			return aff{}, fmt.Errorf("empty term")
+		}
+		sign = 1
+		if j < len(s) && s[j] == '-' {
+			sign = -1
+		}
+		i = j + 1
+	}
+	return out, nil
 }
